@@ -186,7 +186,7 @@ def _large_input(lt, n, dtype):
 
 
 def stream_large(ctx):
-    """batches of 2^k, 2^k±1 items (> 2^14 and > 2^16 in quick): f(x) == cat(f(x[:a]), f(x[a:])) for several cuts, and
+    """batches of 2^k, 2^k±1 items (> 2^14, > 2^16 and > 2^17 in quick; 2^18+1, 2^18+37, 2^20+1 in thorough): f(x) == cat(f(x[:a]), f(x[a:])) for several cuts, and
     f(x)[i] == f(x[i:i+1]) for the first, last and some inner items — for every unary op and binary site, in two layouts"""
     P = pp()
     c06 = C()
@@ -203,10 +203,14 @@ def stream_large(ctx):
         for ei, (label, lt, sk, fn) in enumerate(eps_list):
             if ctx.quick:
                 sizes = [2 ** 14 + 1] + ([2 ** 16 + 1] if ei % 8 == 0 or label.split(".")[1] in ("Jr", "euler", "jinvp") else [])
+                # round 5 (class 34): one size beyond 2^17 with a non-trivial remainder for every block size 2^k, k ≤ 17 (a sixth of the entries, rotating with the seed)
+                sizes += [2 ** 17 + 37] if (ei + ctx.seed) % 6 == 1 else []
             else:
-                sizes = sizes_all
+                sizes = sizes_all + [2 ** 17 + 37, 2 ** 18 + 1, 2 ** 18 + 37, 2 ** 20 + 1]
             for n in sizes:
                 dtype = "float64" if (ei + n) % 3 else "float32"
+                if n > 2 ** 19:
+                    dtype = "float32"          # 2^20+1 items of 7x7 blocks: keep the peak below 2.5 GB
                 case = {"kind": "large", "entry": label, "n": n, "dtype": dtype}
                 ctx.note_case(("large", label, n), True)
                 ctx.count("large")
@@ -233,7 +237,17 @@ def stream_large(ctx):
                     if not bool(torch.isfinite(full[-1]).all()) and bool(torch.isfinite(g(n - 1, n)).all()):
                         ctx.fail(case, f"large: {label} on a batch of {n} items: the LAST output item is not finite although the op on that item alone is")
                         continue
-                    for a in (1, n // 2 + 1, n - 1) if not ctx.quick else (n // 2 + 1, n - 1):
+                    if n > 2 ** 17:          # the LAST n % 2^k items for every k: the tail block alone, bit for bit up to the regime tolerance
+                        tail = g(n - 64, n)
+                        bad = [j for j in range(64) if not c06._close(full[n - 64 + j], tail[j], dtype)]
+                        if bad:
+                            ctx.fail(case, f"split-consistency: {label} on {n} items: output item {n - 64 + bad[-1]} (one of the last n % 2^k items) is "
+                                           f"{full[n - 64 + bad[-1]].flatten()[:4].tolist()}, the op on the last 64 items alone gives {tail[bad[-1]].flatten()[:4].tolist()}")
+                            continue
+                    cuts = (1, n // 2 + 1, n - 1) if not ctx.quick else (n // 2 + 1, n - 1)
+                    if n > 2 ** 17:
+                        cuts = () if ctx.quick else (n // 2 + 1,)        # quick: the tail block and the single items below only
+                    for a in cuts:
                         parts = torch.cat([g(0, a), g(a, n)])
                         if parts.shape != full.shape or not torch.equal(torch.nan_to_num(parts), torch.nan_to_num(full)):
                             pos = int((torch.nan_to_num(parts) != torch.nan_to_num(full)).reshape(n, -1).any(-1).nonzero()[0]) if parts.shape == full.shape else -1
